@@ -11,7 +11,7 @@ git -C /repo worktree add --detach "$WT" HEAD >/dev/null 2>&1 || exit 2
 trap 'git -C /repo worktree remove --force "$WT" >/dev/null 2>&1' EXIT
 for b in "$@"; do (cd "$WT" && git apply "$b") || { echo "base $b does not apply"; exit 2; }; done
 (cd "$WT" && git apply "$DIFF") || { echo "diff does not apply"; exit 2; }
-PKGS=$(cd "$WT" && git diff --name-only | xargs -n1 dirname | sort -u | sed 's|^|./|')
+PKGS=$(grep '^+++ b/' "$DIFF" | sed 's|^+++ b/||' | xargs -n1 dirname | sort -u | sed 's|^|./|')
 echo "== $ID $(basename "$DIFF"): repo tests for $PKGS"
 (cd "$WT" && go1.26 test -count=1 $PKGS 2>&1 | grep -E "^(--- FAIL|ok|FAIL|panic:)|build failed|declared and not used" | head -12)
 echo "== $ID $(basename "$DIFF"): check"
